@@ -27,6 +27,8 @@ pub trait Ciph {
     fn pos(&self, ty: &str) -> Option<u128>;
     fn internals(&self) -> Internals;
     fn set_internals(&mut self, i: Internals);
+    /// a copy made the only public way there is: the `state: Buffer` field is public and `Buffer: Clone`
+    fn clone_box(&self) -> Box<dyn Ciph>;
 }
 
 macro_rules! impl_ciph {
@@ -68,6 +70,13 @@ macro_rules! impl_ciph {
                     self.state.state.get_stream_param(0),
                     self.state.state.get_stream_param(1),
                 )
+            }
+            fn clone_box(&self) -> Box<dyn Ciph> {
+                // (the struct behind the aliases is not exported and its marker fields are not Clone: functional update from a
+                //  throw-away instance supplies the markers, the copied `state` everything else)
+                type T = $t;
+                let c = T { state: self.state.clone(), ..<$t as NewCipher>::new(&Default::default(), &Default::default()) };
+                Box::new(c)
             }
             fn set_internals(&mut self, i: Internals) {
                 self.state.have = i.0 as i8;
@@ -372,6 +381,11 @@ fn internals_json(c: &dyn Ciph) -> String {
 }
 
 impl Episode {
+    /// continue on a copy of the instance (no event: a copy behaves exactly like the original, so the history is unchanged)
+    pub fn clone_swap(&mut self) {
+        let c = self.c.clone_box();
+        self.c = c;
+    }
     pub fn start(out: &mut dyn std::io::Write, variant: &str, key: &[u8], nonce: &[u8], tag: &str, with_internals: bool) -> Episode {
         let c = make_ctor(variant, key, nonce, (key[1] ^ nonce[1]) as usize);
         let mut e = Ev::new(0, "new").s("variant", variant).s("tag", tag).bytes("key", key).bytes("nonce", nonce);
@@ -517,6 +531,7 @@ pub fn run_script(out: &mut dyn std::io::Write, path: &str, seed: u64, with_inte
                 ep.as_mut().unwrap().apply(out, &d)
             }
             "pos" => ep.as_mut().unwrap().pos(out, f[1]),
+            "clone" => ep.as_mut().unwrap().clone_swap(),
             _ => panic!("harness: script line {}", line),
         }
     }
@@ -546,6 +561,9 @@ pub fn drive_histories(out: &mut dyn std::io::Write, seed: u64, thorough: bool, 
         let mut ep = Episode::start(out, variant, &key, &nonce, "rand", with_internals);
         // start some episodes directly near a landmark
         for _ in 0..steps {
+            if rng.below(6) == 0 {
+                ep.clone_swap();
+            }
             match rng.below(10) {
                 0..=3 => {
                     // seek near a landmark (or anywhere)
